@@ -20,7 +20,7 @@ vars == <<objs, lists, counter, nops>>
 Init == objs = <<>> /\ lists = <<>> /\ counter = 0 /\ nops = 0
 Step == nops < MaxOps /\ nops' = nops + 1
 Room == Len(objs) < MaxObjs
-Obj(id, v, c, s, origin, cls, pop, st) == [id |-> id, vec |-> v, costs |-> c, signed |-> s, origin |-> origin, cls |-> cls, pop |-> pop, state |-> st]
+Obj(id, v, c, s, f, origin, cls, pop, st) == [id |-> id, vec |-> v, costs |-> c, signed |-> s, feat |-> f, origin |-> origin, cls |-> cls, pop |-> pop, state |-> st]
 Classes == {"base", "nsga"}
 \* to_dict names the enum member in lower case; a state that already is a string (an object that came from from_dict) is not
 \* recognised by to_string and becomes None: a second round trip loses the state                          (named: StateLostOnSecondRoundTrip)
@@ -28,28 +28,28 @@ DictState(st) == IF st = "EMPTY" THEN "empty" ELSE "None"
 CtorPop(cls) == IF cls = "nsga" THEN 0 ELSE -1          \* IndividualNSGAII starts in population 0, the base class in -1
 N == Len(lists)
 New(v, cls) == /\ Step /\ Room
-          /\ lists' = lists \o << <<v>>, <<>>, <<>> >>
-          /\ objs' = Append(objs, Obj(counter, N + 1, N + 2, N + 3, "ctor", cls, CtorPop(cls), "EMPTY"))
+          /\ lists' = lists \o << <<v>>, <<>>, <<>>, <<>> >>
+          /\ objs' = Append(objs, Obj(counter, N + 1, N + 2, N + 3, N + 4, "ctor", cls, CtorPop(cls), "EMPTY"))
           /\ counter' = counter + 1
 Copy(i) == /\ Step /\ Room /\ i \in DOMAIN objs
-           /\ lists' = lists \o << lists[objs[i].vec], <<>>, <<>> >>
-           /\ objs' = Append(objs, Obj(counter, N + 1, N + 2, N + 3, "ctor", objs[i].cls, CtorPop(objs[i].cls), "EMPTY"))
+           /\ lists' = lists \o << lists[objs[i].vec], <<>>, <<>>, <<>> >>
+           /\ objs' = Append(objs, Obj(counter, N + 1, N + 2, N + 3, N + 4, "ctor", objs[i].cls, CtorPop(objs[i].cls), "EMPTY"))
            /\ counter' = counter + 1
 CopyNsga(i) == /\ Step /\ Room /\ i \in DOMAIN objs /\ objs[i].cls = "nsga"
-               /\ lists' = lists \o << lists[objs[i].vec] >>
-               /\ objs' = Append(objs, Obj(counter, N + 1, objs[i].costs, objs[i].signed, "ctor", "nsga", 0, "EMPTY"))
+               /\ lists' = lists \o << lists[objs[i].vec], <<>> >>
+               /\ objs' = Append(objs, Obj(counter, N + 1, objs[i].costs, objs[i].signed, N + 2, "ctor", "nsga", 0, "EMPTY"))
                /\ counter' = counter + 1
 Sync(a, b) == /\ Step /\ a \in DOMAIN objs /\ b \in DOMAIN objs /\ a # b
-              /\ objs' = [objs EXCEPT ![a] = [@ EXCEPT !.vec = objs[b].vec, !.costs = objs[b].costs, !.signed = objs[b].signed,
+              /\ objs' = [objs EXCEPT ![a] = [@ EXCEPT !.vec = objs[b].vec, !.costs = objs[b].costs, !.signed = objs[b].signed, !.feat = objs[b].feat,
                                                             !.pop = objs[b].pop, !.state = objs[b].state]]
               /\ UNCHANGED <<lists, counter>>
 ToFrom(i) == /\ Step /\ Room /\ i \in DOMAIN objs
-             /\ lists' = lists \o << lists[objs[i].vec], lists[objs[i].costs] >>
-             /\ objs' = Append(objs, Obj(objs[i].id, N + 1, N + 2, objs[i].signed, "dict", "base", objs[i].pop, DictState(objs[i].state)))
+             /\ lists' = lists \o << lists[objs[i].vec], lists[objs[i].costs], lists[objs[i].feat] >>
+             /\ objs' = Append(objs, Obj(objs[i].id, N + 1, N + 2, objs[i].signed, N + 3, "dict", "base", objs[i].pop, DictState(objs[i].state)))
              /\ counter' = counter + 1
 ToFromJson(i) == /\ Step /\ Room /\ i \in DOMAIN objs
-                 /\ lists' = lists \o << lists[objs[i].vec], lists[objs[i].costs], lists[objs[i].signed] >>
-                 /\ objs' = Append(objs, Obj(objs[i].id, N + 1, N + 2, N + 3, "dict", "base", objs[i].pop, DictState(objs[i].state)))
+                 /\ lists' = lists \o << lists[objs[i].vec], lists[objs[i].costs], lists[objs[i].signed], lists[objs[i].feat] >>
+                 /\ objs' = Append(objs, Obj(objs[i].id, N + 1, N + 2, N + 3, N + 4, "dict", "base", objs[i].pop, DictState(objs[i].state)))
                  /\ counter' = counter + 1
 SetVec(i, x) == /\ Step /\ i \in DOMAIN objs
                 /\ lists' = [lists EXCEPT ![objs[i].vec] = [@ EXCEPT ![1] = x]]
@@ -60,22 +60,32 @@ SetCost(i, x) == /\ Step /\ i \in DOMAIN objs /\ Len(lists[objs[i].costs]) < 2
 SetSigned(i, x) == /\ Step /\ i \in DOMAIN objs /\ Len(lists[objs[i].signed]) < 2
                    /\ lists' = [lists EXCEPT ![objs[i].signed] = Append(@, x)]
                    /\ UNCHANGED <<objs, counter>>
+\* the features dictionary (one tracked key): every constructor call and every dictionary round trip makes a fresh one; only sync shares it
+SetFeat(i, x) == /\ Step /\ i \in DOMAIN objs
+                 /\ lists' = [lists EXCEPT ![objs[i].feat] = <<x>>]
+                 /\ UNCHANGED <<objs, counter>>
 Next == \/ \E v \in Vals, c \in Classes : New(v, c)
         \/ \E i \in 1..MaxObjs : Copy(i) \/ CopyNsga(i) \/ ToFrom(i) \/ ToFromJson(i)
         \/ \E a, b \in 1..MaxObjs : Sync(a, b)
-        \/ \E i \in 1..MaxObjs, x \in Vals : SetVec(i, x) \/ SetCost(i, x) \/ SetSigned(i, x)
+        \/ \E i \in 1..MaxObjs, x \in Vals : SetVec(i, x) \/ SetCost(i, x) \/ SetSigned(i, x) \/ SetFeat(i, x)
 Spec == Init /\ [][Next]_vars
 \* ---- what the rest of the framework relies on ----
-TypeOK == \A i \in DOMAIN objs : objs[i].vec \in DOMAIN lists /\ objs[i].costs \in DOMAIN lists /\ objs[i].signed \in DOMAIN lists
+TypeOK == \A i \in DOMAIN objs : {objs[i].vec, objs[i].costs, objs[i].signed, objs[i].feat} \subseteq DOMAIN lists
 CounterAhead == \A i \in DOMAIN objs : objs[i].id < counter                                   \* a fresh id is never one in use
 CtorIdsUnique == \A i, j \in DOMAIN objs : (i # j /\ objs[i].origin = "ctor" /\ objs[j].origin = "ctor") => objs[i].id # objs[j].id
 \* a vector list is never the costs or signed list of anything (the three kinds of list never mix)
-KindsApart == \A i, j \in DOMAIN objs : objs[i].vec \notin {objs[j].costs, objs[j].signed} /\ objs[i].costs # objs[j].signed
+KindsApart == \A i, j \in DOMAIN objs : /\ objs[i].vec \notin {objs[j].costs, objs[j].signed, objs[j].feat}
+                                         /\ objs[i].costs \notin {objs[j].signed, objs[j].feat} /\ objs[i].signed # objs[j].feat
+\* feature dictionaries are shared only through sync: copies and round trips get their own (C07's parallel evaluation writes the
+\* feasibility of a design into its features while other designs are in flight)
+FeatSharedOnlyBySync ==
+   [][ (\A a, b \in 1..MaxObjs : ~Sync(a, b)) =>
+         \A i, j \in DOMAIN objs' : (i # j /\ objs'[i].feat = objs'[j].feat) => (i \in DOMAIN objs /\ j \in DOMAIN objs /\ objs[i].feat = objs[j].feat) ]_vars
 \* vectors become shared only through sync: every other operation gives the new object a vector of its own
 VecSharedOnlyBySync ==
    [][ (\A a, b \in 1..MaxObjs : ~Sync(a, b)) =>
          \A i, j \in DOMAIN objs' : (i # j /\ objs'[i].vec = objs'[j].vec) => (i \in DOMAIN objs /\ j \in DOMAIN objs /\ objs[i].vec = objs[j].vec) ]_vars
 \* a stored and re-read design (JSON path) is isolated from the live one
 JsonIsolates == [][ \A i \in 1..MaxObjs : ToFromJson(i) =>
-                       LET n == Len(objs') IN \A j \in DOMAIN objs : {objs'[n].vec, objs'[n].costs, objs'[n].signed} \cap {objs[j].vec, objs[j].costs, objs[j].signed} = {} ]_vars
+                       LET n == Len(objs') IN \A j \in DOMAIN objs : {objs'[n].vec, objs'[n].costs, objs'[n].signed, objs'[n].feat} \cap {objs[j].vec, objs[j].costs, objs[j].signed, objs[j].feat} = {} ]_vars
 =============================================================================
